@@ -25,7 +25,7 @@ M("own-projgr-inplace", "base.py",
 Q("own-grad-rebinding", "main.py",
   "    grad = grad * sf.scaling_factor\n", "    grad = sf.scaling_factor * grad\n", ["OWN"])
 Q("own-grad-copy-then-inplace", "main.py",
-  "    grad = grad * sf.scaling_factor\n", "    grad = grad.copy()\n    grad *= sf.scaling_factor\n", ["OWN"])
+  "        grad = grad * sf.scaling_factor\n", "        grad = grad.copy()\n        grad *= sf.scaling_factor\n", ["OWN"])
 Q("own-x-inplace-on-private", "main.py",
   "            x = np.clip(x + steplength * d, lb, ub)\n",
   "            x += steplength * d\n            np.clip(x, lb, ub, out=x)\n", ["OWN"],
